@@ -287,9 +287,12 @@ Section RL.
         * intros m' Hm'. inversion Hm'; subst m'; cbn [lm_head lm_tail lm_ver]. split; [lia|]. split; [exact vk|]. split.
           -- intros s Hs. apply lmem_In. assert (P : lmem (lm_ver m) s (l_elems l) = true) by (apply pres; lia).
              apply lmem_In in P. apply in_map_iff in P. destruct P as (e & Ee & He). apply in_map_iff. exists e. split; [exact Ee|].
-             apply filter_In. split; [exact He|]. rewrite Ee; cbn [fst snd]. rewrite Z.eqb_refl. lia.
-          -- intros e He Hv'. apply filter_In in He. destruct He as [He Hn]. specialize (conf e He Hv').
-             rewrite Hv', Z.eqb_refl in Hn. lia.
+             apply filter_In. split; [exact He|]. cbv beta. unfold skey in *. rewrite Ee; cbn [fst snd]. rewrite Z.eqb_refl.
+             assert (s <? lm_head m + start2 = false) as -> by lia. assert (lm_head m + stop2 <? s = false) as -> by lia.
+             destruct (lm_head m <=? s); reflexivity.
+          -- intros e He Hv'. apply filter_In in He. destruct He as [He Hn]. destruct (conf e He Hv') as [c1 c2].
+             unfold skey in *. rewrite Hv', Z.eqb_refl in Hn. cbn [andb] in Hn. apply negb_true_iff, orb_false_iff in Hn.
+             destruct Hn as [N1 N2]. apply andb_false_iff in N1. apply andb_false_iff in N2. lia.
         * discriminate.
         * intros e He. apply filter_In in He. apply (rl_vers _ _ Rm e); tauto.
     - (* lclear *)
